@@ -198,6 +198,37 @@ impl<'a> CycRef<'a> {
         self.reach(entry).iter().any(|n| self.on_cycle.contains(n) && !self.recovers(*n))
     }
 
+    /// Known-finding diagnosis (C13): is `got` what node `n` returns when some non-empty set of
+    /// nodes that lie on a fallback cycle return their *body* value (computed over the other
+    /// results) instead of their fallback? This is the observable signature of "a participant of
+    /// a fallback cycle was re-executed while the cycle head's memo was still valid".
+    pub fn fb_body_value_model_matches(&self, n: usize, got: u32) -> bool {
+        let (lo, hi) = (self.prog.blk_lo as usize, self.prog.blk_hi as usize);
+        let cyc: Vec<usize> = self.on_cycle.iter().copied().collect();
+        if cyc.is_empty() || cyc.len() > 10 {
+            return false;
+        }
+        for mask in 1u32..(1 << cyc.len()) {
+            let in_s = |x: usize| cyc.iter().position(|c| *c == x).is_some_and(|p| mask & (1 << p) != 0);
+            let mut vals = self.vals.clone();
+            // members of S start from their fallback and are recomputed by their bodies
+            for _ in 0..=(2 * (hi - lo) + 2) {
+                for i in lo..hi {
+                    if in_s(i) || !self.on_cycle.contains(&i) {
+                        vals[i] = self.body(i, &vals).0;
+                    }
+                }
+            }
+            for i in hi..self.prog.nodes.len() {
+                vals[i] = self.body(i, &vals).0;
+            }
+            if vals[n] == got {
+                return true;
+            }
+        }
+        false
+    }
+
     /// does the request of `entry` involve a node whose guarded non-monotone op is active?
     pub fn bad_active(&self, entry: usize) -> bool {
         match self.prog.bad_guard {
